@@ -16,7 +16,9 @@ def run_demo(src, wt, meta):
         rc, out = sh("go build -o /var/tmp/seed-gopatch . ", wt)
         if rc != 0:
             return None, "build failed: " + out[-500:]
-        rc, out = sh(f"sh {os.path.join(src, 'demo.sh')} /var/tmp/seed-gopatch", wt, timeout=300)
+        first = open(os.path.join(src, "demo.sh")).readline()
+        shell = "bash" if "bash" in first else "sh"
+        rc, out = sh(f"{shell} {os.path.join(src, 'demo.sh')} /var/tmp/seed-gopatch", wt, timeout=300)
         return rc == 0, out[-800:]
     tests = [f for f in os.listdir(src) if f.endswith("_test.go")]
     if tests:
